@@ -251,6 +251,15 @@ def tie(ctx):
             unframed.add(i)
         # the library's own blob, framing included, through the library's own from_blob / decode
         if ht and ht[0] == "ok" and len(ht) >= 3 and k not in cd.RAW_KINDS:
+            if len(ht[2]) > 24 and rng.random() < 0.3:
+                # a blob the decoder must REFUSE (its own blob with the stream cut, or one byte damaged), decoded in
+                # the same library process just before a valid one: whatever the refusal leaves behind in the framing
+                # helper must not change the next answer
+                cut = 8 + 2 * rng.randrange(3, (len(ht[2]) - 8) // 2)
+                bad = ht[2][:cut] if rng.random() < 0.7 else \
+                    ht[2][:cut] + "%02x" % (int(ht[2][cut:cut + 2] or "0", 16) ^ 0x5a) + ht[2][cut + 2:]
+                decz_lines.append("decz %s %s" % (k, bad))
+                decz_idx.append(None)
             decz_lines.append("decz %s %s" % (k, ht[2]))
             decz_idx.append(i)
     hdec, mdec = run_both(dec_lines) if dec_lines else ([], [])
@@ -261,8 +270,14 @@ def tie(ctx):
             divergences.append({"input": dec_lines[j][:400], "impl": hdec[j][:200], "model": mdec[j][:200]})
     hdz, mdz = run_both(decz_lines) if decz_lines else ([], [])
     decodedz = {}
+    dz_pos = {}
+    dz_shard = max(1, (len(decz_lines) + max(1, min(NCPU, len(decz_lines))) - 1) // max(1, min(NCPU, len(decz_lines)))) if decz_lines else 1
     for j, i in enumerate(decz_idx):
-        decodedz[i] = hdz[j]
+        if i is not None:
+            decodedz[i] = hdz[j]
+            dz_pos[i] = j
+        else:
+            hist["refused_before_valid"] = hist.get("refused_before_valid", 0) + (0 if hdz[j].startswith("ok") else 1)
         if hdz[j] != mdz[j]:
             divergences.append({"input": decz_lines[j][:400], "impl": hdz[j][:200], "model": mdz[j][:200]})
     # ---- direct oracle on the implementation's own answers
@@ -303,7 +318,15 @@ def tie(ctx):
         else:
             why = "encoder crashed / undefined behaviour: %s" % h
         per_kind[k] = per_kind.get(k, 0) + 1
-        if why:
+        if why and h.startswith("ok") and i not in unframed and decoded.get(i) == "ok " + cd.expected_readback(k, v) \
+                and i in dz_pos and any(x is None for x in decz_idx[(dz_pos[i] // dz_shard) * dz_shard:dz_pos[i]]):
+            # the payload decodes; the framed blob did not — after blobs this library process had refused: a history
+            j = dz_pos[i]
+            violations.append({"tag": "oracle", "signature": sig,
+                               "header": {"kind": "sequence", "what": why + " (after blobs it had refused)"},
+                               "body": decz_lines[(j // dz_shard) * dz_shard:j + 1][-40:] +
+                                       ["impl: " + hdz[j][:300], "want: ok " + cd.expected_readback(k, v)[:300]]})
+        elif why:
             violations.append({"tag": "oracle", "signature": sig,
                                "header": {"kind": "input", "what": why},
                                "body": [enc_lines[i][:200000], "impl: " + h[:300]] +
